@@ -523,6 +523,20 @@ func c13PolygonMachine(variant int) *machine {
 			hole.Invert()
 			return s2.PolygonFromOrientedLoops([]*s2.Loop{shell, hole})
 		}
+		if variant == 2 {
+			// 14 loops (above the 12-loop linear-search threshold: the polygon keeps its cumulative edge
+			// table), of differing vertex counts; the largest shell has holes AND sibling shells, and is
+			// not given first, so that Invert reorders the loops
+			var ls []*s2.Loop
+			for i := 0; i < 10; i++ {
+				ls = append(ls, s2.RegularLoop(s2.PointFromLatLng(s2.LatLngFromDegrees(-10, 10*float64(i))), s1.Degree*2, 4+i))
+			}
+			ls = append(ls, s2.RegularLoop(ctr, s1.Degree*10, 40))
+			for i, ll := range [][2]float64{{38, -24}, {32, -24}, {31, -17}} {
+				ls = append(ls, s2.RegularLoop(s2.PointFromLatLng(s2.LatLngFromDegrees(ll[0], ll[1])), s1.Degree*1, 5+i))
+			}
+			return s2.PolygonFromLoops(ls)
+		}
 		a := s2.RegularLoop(ctr, s1.Degree*5, 36)
 		b := s2.RegularLoop(s2.PointFromLatLng(s2.LatLngFromDegrees(35, 10)), s1.Degree*6, 40)
 		return s2.PolygonFromLoops([]*s2.Loop{a, b})
@@ -543,6 +557,19 @@ func c13PolygonMachine(variant int) *machine {
 		{"Contains/Intersects(far)", func(p *s2.Polygon) string { return fmt.Sprint(p.Contains(otherFar), p.Intersects(otherFar)) }},
 		{"Cell relations", func(p *s2.Polygon) string { return fmt.Sprint(p.ContainsCell(cell), p.IntersectsCell(cell)) }},
 		{"Area", func(p *s2.Polygon) string { return fmt.Sprint(p.Area(), p.NumLoops(), p.RectBound()) }},
+		{"Edges/Chains", func(p *s2.Polygon) string {
+			// the shape interface: every edge by id, by (chain, offset), and ChainPosition; as a sorted
+			// multiset so that the comparison with a fresh polygon does not depend on the loop order
+			var es []string
+			for e := 0; e < p.NumEdges(); e++ {
+				ed := p.Edge(e)
+				cp := p.ChainPosition(e)
+				ce := p.ChainEdge(cp.ChainID, cp.Offset)
+				es = append(es, fmt.Sprint(ed.V0, ed.V1, ce == ed))
+			}
+			sort.Strings(es)
+			return fmt.Sprint(p.NumEdges(), p.NumChains(), es)
+		}},
 	}
 	m := &machine{name: fmt.Sprintf("M3-Polygon(variant %d)", variant), nOps: len(ops)}
 	m.opStr = func(op int) string { return ops[op].name }
@@ -1052,7 +1079,7 @@ func c13Jobs(c *core.Ctx) []c13Job {
 		jobs = append(jobs, c13Job{true, c13LoopMachine(nv), core.Pick(c, 5, 7)})
 	}
 	jobs = append(jobs, c13Job{true, c13LoopMachineAt(40, 90, 0), core.Pick(c, 5, 7)}, c13Job{true, c13LoopMachineAt(64, -90, 0), core.Pick(c, 4, 7)})
-	for v := 0; v < 2; v++ {
+	for v := 0; v < 3; v++ {
 		jobs = append(jobs, c13Job{true, c13PolygonMachine(v), core.Pick(c, 4, 6)})
 	}
 	jobs = append(jobs,
